@@ -147,3 +147,16 @@ CONTRACTS.append(Contract(
              ('a-list-is-passed-unchanged', 'implies(isinstance(old(property_list), list), result == old(property_list))')],
     raises={'TypeError': Raises(post=[('only-for-a-wrong-type', 'isinstance(old(property_list), int)')])},
 ))
+
+# ---- the listener's CIM-XML responses (mechanism "send_error_response/send_success_response" of this property) are
+# under contract in contracts/C17.py (Content-Length = bytes written, echoed message id and method name): shared here
+import importlib.util as _ilu
+import os as _os
+import sys as _sys
+_spec = _ilu.spec_from_file_location('contracts_C17_shared', _os.path.join(_os.path.dirname(_os.path.abspath(__file__)), 'C17.py'))
+_c17 = _ilu.module_from_spec(_spec)
+_sys.modules['contracts_C17_shared'] = _c17
+_spec.loader.exec_module(_c17)
+CONTRACTS.extend(c for c in _c17.CONTRACTS if c.key.endswith('send_error_response') or c.key.endswith('send_success_response'))
+for _k, _v in _c17.CLASS_SPECS.items():
+    CLASS_SPECS.setdefault(_k, {}).update(_v)
